@@ -82,6 +82,16 @@ fn handle_faucet_tx<C: ContentAddrStore>(
                 "allowing mainnet faucet with hash {:?}",
                 tx.hash_nosigs().to_string()
             );
+            // The exception only exempts this transaction from the chain-wide duplicate check (it left no marker back then).
+            // A block still lists it once: a second application into the same block would credit its fee again, and no
+            // block could say so (the transaction set holds one copy), so the block's own parent would reject it.
+            if state
+                .transactions
+                .iter_hashes()
+                .any(|listed| listed == tx.hash_nosigs())
+            {
+                return Err(StateError::DuplicateTx);
+            }
         }
 
         let pseudocoin = faucet_dedup_pseudocoin(tx.hash_nosigs());
